@@ -207,6 +207,39 @@ def r6(p, rep):
         rep.add("C07.R6", f"{f.qualname}:keepdims-rewrite", f"{m.rel}:{n.lineno}", ok, "keepdims=True wraps each bracket into a flattened axis `([...])`" if ok else f"keepdims branch does `{body[:80]}`")
 
 
+def r7(p, rep):
+    rep.rule("C07.R7", "a recursive tree walk never forgets an inherited context (once inside brackets, always inside brackets): redundant nested brackets are dropped at every depth", "T-SIB over the recursive calls of a walk (context parameter is handed down, set, but never reset)", floor=1)
+    n = 0
+    for f in p.funcs.values():
+        if not isinstance(f.node, ast.FunctionDef) or not f.module.name.startswith("einx._src.namedtensor."):
+            continue
+        rec = [c for c in ast.walk(f.node) if isinstance(c, ast.Call) and isinstance(c.func, ast.Name) and c.func.id == f.name]
+        if not rec:
+            continue
+        host = f.parent.node if f.parent else f.module.tree
+        ext = [c for c in ast.walk(host) if isinstance(c, ast.Call) and isinstance(c.func, ast.Name) and c.func.id == f.name and c not in rec]
+        for i, prm in enumerate(f.params):
+            def arg(c, i=i, prm=prm):
+                if i < len(c.args):
+                    return c.args[i]
+                return next((k.value for k in c.keywords if k.arg == prm), None)
+
+            initial = {norm(arg(c)) for c in ext if isinstance(arg(c), ast.Constant)}
+            if len(initial) != 1:
+                continue
+            vals = [(c, arg(c)) for c in rec]
+            entered = {norm(v) for c, v in vals if isinstance(v, ast.Constant)} - initial
+            if not entered:
+                continue  # the parameter is only handed down unchanged: not a context marker
+            n += 1
+            resets = [c for c, v in vals if isinstance(v, ast.Constant) and norm(v) in initial]
+            missing = [c for c, v in vals if v is None]
+            ok = not resets and not missing
+            rep.add("C07.R7", f"{f.qualname}:{prm}", f.loc, ok, f"`{prm}` starts as {sorted(initial)[0]}, is set to {sorted(entered)} when the context is entered and is otherwise handed down unchanged in all {len(vals)} recursive calls" if ok else f"`{norm((resets or missing)[0])[:70]}` resets `{prm}` to its start value {sorted(initial)[0]} inside the recursion: below that node the walk no longer knows it is inside the context (e.g. a bracket nested in an ellipsis inside a bracket, '[a [s]...]', survives as a nested bracket and the call fails or is mis-counted)")
+    if n == 0:
+        raise AnalysisError("unrecognised idiom: no recursive walk with an entered-context flag found in einx._src.namedtensor")
+
+
 def run(p, rep, tier):
     r1(p, rep)
     r2(p, rep)
@@ -215,4 +248,5 @@ def run(p, rep, tier):
     r4(p, rep)
     r5(p, rep)
     r6(p, rep)
+    r7(p, rep)
     rep.info["undecided"] = "every value-level equivalence between a short and its long form (ellipsis expansion, '->'/',' distribution, adjacent brackets, length-1 coordinate brackets, extra spaces)"
